@@ -61,10 +61,14 @@ def main_cli():
             warning_control[new_warning_name] = value
 
 
-    report_handler = reports.FilterHandler({
-        "graphical": reports.GraphicalHandler,
-        "bare": reports.BareHandler
-    }[args.report_format](), warning_control)
+    # '-o -' (or '-o -.bin') writes the image to the standard output: the reports
+    # must not be mixed into it
+    image_to_stdout = args.outfile is not None and (args.outfile == "-" or (args.outfile.startswith("-.") and args.outfile.count(".") == 1 and "/" not in args.outfile))
+    if args.report_format == "bare":
+        handler = reports.BareHandler(to_stderr=image_to_stdout)
+    else:
+        handler = reports.GraphicalHandler()
+    report_handler = reports.FilterHandler(handler, warning_control)
 
 
     error = False
